@@ -487,4 +487,74 @@ def rule_large_hole_threshold(P):
     return R
 
 
-RULES = [rule_counter_width, rule_mirror_simplify, rule_swap_loops, rule_image_fire, rule_small_hole_threshold, rule_graph_diagonals, rule_large_hole_threshold]
+def rule_refcount_twins(P):
+    """node_headers keeps two counts per node: incoming pointers (linkNode / unlinkNode) and compute-table mentions (cacheNode / uncacheNode).
+    The twins of a pair work on the same counter array; terminals are filtered out before a counter is touched; reaching zero — and only that —
+    triggers lastUnlink / lastUncache; coming back from zero triggers reviveNode"""
+    R = RuleResult("sibling.refcount-twins", "node_headers: link/unlink use incoming_counts, cache/uncache use cache_counts; each filters terminals (p<1) first; unlinkNode (uncacheNode) calls lastUnlink (lastUncache) exactly on the not-positive edge of isPositiveAfterDecrement; linkNode calls reviveNode exactly on the true edge of isZeroBeforeIncrement")
+    spec = {
+        "linkNode": ("incoming_counts", "isZeroBeforeIncrement", "reviveNode", True),
+        "unlinkNode": ("incoming_counts", "isPositiveAfterDecrement", "lastUnlink", False),
+        "cacheNode": ("cache_counts", "increment", None, None),
+        "uncacheNode": ("cache_counts", "isPositiveAfterDecrement", "lastUncache", False),
+    }
+    found = 0
+    for name, (arr, op, react, on_true) in spec.items():
+        fs = [f for f in P.fns.values() if f["q"] == M + "node_headers::" + name and f.get("cfg")]
+        if not fs:
+            raise AnalysisBroken("sibling.refcount-twins: node_headers::%s not found" % name)
+        f = fs[0]
+        found += 1
+        g = Graph(f)
+        R.functions.add(f["inst"])
+        hp = f["params"][0]["name"]
+        counters = [k for k in g.nodes if k.kind == "call" and k.ev["q"].startswith(M + "counter_array::")]
+        # which array
+        R.paths += 1
+        iid = "%s counts in %s with %s" % (name, arr, op)
+        used = {(re.sub(r"\s+", "", str(k.ev.get("recv") or "")).replace("this->", ""), k.ev["q"].split("::")[-1]) for k in counters if k.ev["q"].split("::")[-1] not in ("get",)}
+        if used == {(arr, op)}:
+            R.ok(iid, where(f))
+        else:
+            R.fail(iid, where(f), Finding(R.rule, f["file"], f["q"], "array", "%s must update %s with %s and nothing else; it does %s" % (name, arr, op, sorted(used)), f["line"]))
+        # terminal filter first
+        R.paths += 1
+        iid = "%s leaves terminals alone" % name
+        guard = [b for b in g.nodes if b.kind == "branch" and b.cond and len(b.succ) == 2 and re.sub(r"\s+", "", b.cond["text"]) in ("%s<1" % hp, "%s<=0" % hp, "1>%s" % hp, "0>=%s" % hp)]
+        ge = {(b.id, 1 if b.cond.get("neg") else 0) for b in guard}   # edges on which the handle IS a terminal
+        upd = lambda k: k.kind == "call" and k.ev["q"].startswith(M + "counter_array::") and k.ev["q"].split("::")[-1] != "get"
+        reach_term = set()
+        for b in guard:
+            te = 1 if b.cond.get("neg") else 0
+            reach_term |= g.reach([s_ for s_, i in b.succ if i == te])
+        # every update is behind the non-terminal edge: no path entry→update avoiding all guards' non-terminal edges … i.e. crossing a terminal edge
+        bad = [k for k in g.nodes if upd(k) and (not guard or g.path(g.entry, lambda x, k=k: x.id == k.id, avoid_edge=lambda n, i: any(n.id == b.id for b in guard) and (n.id, i) not in ge) is not None)]
+        if guard and not bad:
+            R.ok(iid, where(f))
+        else:
+            R.fail(iid, where(f), Finding(R.rule, f["file"], f["q"], "terminal-filter", "a counter is updated for a handle that may be a terminal (no `%s<1` test before it): terminal handles are negative and index outside the counter arrays" % hp, f["line"]))
+        if react:
+            R.paths += 1
+            iid = "%s calls %s exactly on the %s edge of %s" % (name, react, "true" if on_true else "false", op)
+            tests = [b for b in g.nodes if b.kind == "branch" and b.cond and len(b.succ) == 2 and any(c.endswith("counter_array::" + op) for c in b.cond["calls"])]
+            calls = [k for k in g.nodes if k.kind == "call" and k.ev["q"].endswith("::" + react)]
+            ok = len(tests) == 1 and len(calls) >= 1
+            if ok:
+                b = tests[0]
+                te = 1 if b.cond.get("neg") else 0          # edge on which op() returned true
+                want = te if on_true else 1 - te
+                other = 1 - want
+                want_arm = g.reach([s_ for s_, i in b.succ if i == want])
+                other_arm = g.reach([s_ for s_, i in b.succ if i == other])
+                is_exit = lambda x: x.kind == "ret" or x.id == g.exit
+                w0 = [s_ for s_, i in b.succ if i == want][0]
+                ok = all(k.id in want_arm and k.id not in other_arm for k in calls) and (g.nodes[w0].id in {k.id for k in calls} or g.path(w0, is_exit, avoid=lambda x: x.id in {k.id for k in calls}) is None)
+            if ok:
+                R.ok(iid, where(f))
+            else:
+                R.fail(iid, where(f), Finding(R.rule, f["file"], f["q"], "reaction", "%s must be called on every path of the %s edge of %s and on no other path" % (react, "true" if on_true else "false", op), f["line"]))
+    R.require_floor(11, "reference-count twin obligations")
+    return R
+
+
+RULES = [rule_counter_width, rule_mirror_simplify, rule_swap_loops, rule_image_fire, rule_small_hole_threshold, rule_graph_diagonals, rule_large_hole_threshold, rule_refcount_twins]
